@@ -2,6 +2,7 @@ import Driver.Cache
 import Driver.TI
 import Driver.TC
 import Driver.Spec
+import Driver.Interp
 
 open Osu.Driver
 
@@ -16,6 +17,7 @@ def handle (st : DState) (line : String) : DState × String :=
   | "ti" :: rest => (st, TI.step rest)
   | "tc" :: rest => (st, TC.step rest)
   | "spec" :: rest => (st, Spec.step rest)
+  | "interp" :: rest => (st, Interp.step rest)
   | _ => (st, "bad-op")
 
 partial def loop (h : IO.FS.Stream) (out : IO.FS.Stream) (st : DState) : IO Unit := do
